@@ -8,4 +8,6 @@ require (
 	github.com/valyala/bytebufferpool v1.0.0
 )
 
+require github.com/apache/thrift v0.18.1 // indirect
+
 replace github.com/parsyl/parquet => /repo
